@@ -35,8 +35,13 @@ func Configs(n int, R specqbft.Round, heights []specqbft.Height) []*Cfg {
 			base := &Cfg{N: n, Height: h, Byz: spectypes.OperatorID(byz), MaxRound: R, Role: spectypes.BNRoleAttester}
 			base.Init()
 			pols := []*Policy{nil}
-			if byz != 0 {
+			if byz != 0 && n <= 4 {
 				pols = append(pols, Policies(base.Honest)...)
+			} else if byz != 0 {
+				if byz > 3 {
+					continue // larger committees: identities 1-3 (leaders of rounds 1-3 at height 0)
+				}
+				pols = append(pols, PoliciesLimited(base.Honest)...)
 			}
 			for _, p := range pols {
 				for _, st := range StartAssignments(base.Honest) {
@@ -82,7 +87,7 @@ func FromArtefact(t map[string]interface{}) (*Cfg, []Event, error) {
 		c.Start[h] = t["start"].(string)[i]
 	}
 	if pn := t["policy"].(string); pn != "" {
-		for _, p := range Policies(c.Honest) {
+		for _, p := range append(Policies4(c), PoliciesLimited(c.Honest)...) {
 			if p.Name == pn {
 				c.Policy = p
 			}
@@ -97,4 +102,12 @@ func FromArtefact(t map[string]interface{}) (*Cfg, []Event, error) {
 		evs = append(evs, Event{Kind: EventKind(x[0].(float64)), To: spectypes.OperatorID(x[1].(float64)), Idx: int(x[2].(float64))})
 	}
 	return c, evs, nil
+}
+
+// Policies4 is the full library for committees of four (nil otherwise).
+func Policies4(c *Cfg) []*Policy {
+	if c.N > 4 {
+		return nil
+	}
+	return Policies(c.Honest)
 }
